@@ -30,6 +30,8 @@ def name_only_closure(lib, clo_name):
     cb = lib.bodies.get(clo_name)
     if cb is None:
         return False, "closure body not found"
+    from .common import look_through_private
+    cb = look_through_private(lib, cb)
     t = strip(term_of(cb, {"l": 0, "p": []}))
     if not (t[0] == "call" and t[1] in ("std::cmp::PartialEq::eq",) and len(t[2]) == 2):
         return False, "predicate is %s" % term_s(t)[:60]
